@@ -141,11 +141,12 @@ def abstract(f, tdict, env, memo=None):
     return r
 
 
-def check_ack(env, f, timeout_ms=5000):
+def check_ack(env, f, timeout_ms=5000, ack=None):
     from pysmt.rewritings import Ackermannizer
     name = "ackermann"
     m = env.formula_manager
-    ack = Ackermannizer(env)
+    if ack is None:
+        ack = Ackermannizer(env)
     try:
         g = ack.do_ackermannization(f)
         tdict = dict(ack.get_term_to_const_dict())
@@ -163,6 +164,9 @@ def check_ack(env, f, timeout_ms=5000):
         return {"name": name, "status": "viol", "signature": "ack/dict",
                 "describe": "term->constant dictionary misses %s" % missing,
                 "replay": {"k": "ack", "formula": bp.to_bp(f)}}
+    # a re-used instance also knows the applications of earlier formulas: their constants are "freshly
+    # introduced symbols" of this output too, and the extension gives each the value of its term
+    apps = apps + [t for t in tdict if t not in apps and t.node_type() == op.FUNCTION]
     tr = Z3Tr()
     try:
         zf, zg = tr.tr(f), tr.tr(g)
@@ -236,6 +240,36 @@ def gen_ack(env, tier):
     return BoolGrammar.uniq(out)
 
 
+def gen_ack_reuse(env, tier):
+    """pairs (f1, f2) handed one after the other to the SAME Ackermannizer instance; they share applications"""
+    forms = gen_ack(env, "quick")
+    sel = forms[::7] if tier == "quick" else forms[::3]
+    out = []
+    for k, f1 in enumerate(sel):
+        for f2 in sel[k + 1::5]:
+            if f1 is not f2:
+                out.append((f1, f2))
+                out.append((f2, f1))
+    return out
+
+
+def check_ack_reuse(env, pair, timeout_ms=5000):
+    from pysmt.rewritings import Ackermannizer
+    f1, f2 = pair
+    ack = Ackermannizer(env)
+    try:
+        ack.do_ackermannization(f1)
+    except Exception:
+        return {"name": "ack-reuse", "status": "ok", "skipped": True}
+    r = check_ack(env, f2, timeout_ms, ack=ack)
+    if r["status"] == "viol":
+        r["signature"] = r["signature"].replace("ack/", "ack-reuse/")
+        r["describe"] = "after do_ackermannization(%s) on the same instance: %s" % (f1.serialize(), r["describe"])
+        r["replay"] = {"k": "ack-reuse", "first": bp.to_bp(f1), "formula": bp.to_bp(f2)}
+    r["name"] = "ack-reuse"
+    return r
+
+
 def mk(kind):
     def chk(env, f):
         return check_cnf(kind, env, f)
@@ -245,12 +279,15 @@ def mk(kind):
 for _k in ("cnf", "cnf_as_set", "polarity"):
     tv.register("c11-" + _k, gen_cnf, mk(_k))
 tv.register("c11-ackermann", gen_ack, check_ack)
+tv.register("c11-ackermann-reuse", gen_ack_reuse, check_ack_reuse)
 
 
 def replay(data):
     env = tv.fresh_env()
     f = bp.from_bp(data["formula"], env)
-    if data["k"] == "ack":
+    if data["k"] == "ack-reuse":
+        r = check_ack_reuse(env, (bp.from_bp(data["first"], env), f), timeout_ms=20000)
+    elif data["k"] == "ack":
         r = check_ack(env, f, timeout_ms=20000)
     else:
         r = check_cnf(data["k"], env, f, timeout_ms=20000)
@@ -272,7 +309,7 @@ def run(run, only=None):
                                     "interpretations of the original symbols"}
     run.outside = ["formulas with quantifiers (outside the procedures' fragment)", "more than 6 applications per symbol"]
     run.assumptions = ["z3 native semantics (tr_z3.py)"]
-    for fam in ("cnf", "cnf_as_set", "polarity", "ackermann"):
+    for fam in ("cnf", "cnf_as_set", "polarity", "ackermann", "ackermann-reuse"):
         if only and fam not in only:
             continue
         tv.run_family(run, "c11-" + fam, run.tier)
